@@ -347,6 +347,18 @@ def enumerate_universe():
                         yield {'kind': 'pair', 'pol': {'hks': {'c': {'hostkey_size': 3072, 'ca_key_type': pct, 'ca_key_size': ps}}, 'larger': larger}, 'peer': dict(base, key=['c'], hks={'c': [hs, qct, qs]})}
 
 
+POL_BANNERS = ['SSH-2.0-OpenSSH_9.1', 'SSH-2.0-FooSSH_1.0 "beta"', 'SSH-2.0-x "', 'SSH-2.0-x \\', '', 'SSH-2.0-a=b', 'SSH-2.0-OpenSSH_9.1 Debian-1', '"', 'SSH-2.0-x #1', 'SSH-2.0-x "y" z', "SSH-2.0-x 'q'", 'SSH-1.99-x', 'SSH-2.0-']
+PEER_BANNERS = [b for b in POL_BANNERS if b not in ('', '"')] + ['SSH-2.0-x', 'SSH-2.0-x "x', 'SSH-2.0-FooSSH_1.0 beta', 'SSH-2.0-OpenSSH_9.1 Debian-2']
+
+
+def enumerate_banners():
+    """The banner field: every policy banner against every peer banner (quotes, backslashes, '=', '#', the empty banner)."""
+    base = {'kex': ['k'], 'key': ['h'], 'enc': ['e'], 'mac': ['m']}
+    for pb in POL_BANNERS:
+        for qb in PEER_BANNERS:
+            yield {'kind': 'pair', 'pol': {'banner': pb}, 'peer': dict(base, banner=qb)}
+
+
 def _db_names(cat):
     from ssh_audit.ssh2_kexdb import SSH2_KexDB
     return sorted(n for n in SSH2_KexDB.MASTER_DB[cat] if not n.endswith('*'))
@@ -441,7 +453,7 @@ def strat_full():
 
 
 def run(ctx):
-    uni = list(enumerate_universe())
+    uni = list(enumerate_universe()) + list(enumerate_banners())
     ctx.map(uni, chunk=500)
     ctx.exhaustive = True
     n = 40000 if ctx.quick else 400000
